@@ -3,6 +3,9 @@
 import json
 SC="stateless model checking of the implementation under a controlled scheduler (iterative preemption/delay bounding)"
 CHECKS = {
+ "C13": dict(engine="vsched", technique=SC,
+   text="the real TCPRelay.handleConn runs over scheduler-aware in-memory connections with real protocol servers (tunnel, SOCKS5, SS2022, HTTP CONNECT, SS-none) in front, the real router and a recording outgoing client; every interleaving within a deviation bound (incl. the 250 ms initial-payload timer landing early or late) of client, relay, copy goroutine and target is executed and checked for target/payload fidelity, failure replies, mirrored half-closes and statistics",
+   note="handleConn parameter widened to netio.Conn by the overlay; only listener settings the service can produce are explored"),
  "C08": dict(engine="vsched", technique="explicit-state enumeration of operation histories (each run on the controlled scheduler with the virtual clock) + stateless model checking of concurrent operations, oracle through real TCP/UDP handshakes",
    text="every history to a stated depth over add/update/delete/edit-and-reload/reload on 2 users x 3 keys, and every interleaving within a deviation bound of 2-3 concurrent operations, with the accepted-key set (real SS2022 TCP handshake and UDP first packet, with attribution), the listed set and the saved file compared at every quiescent state",
    note="sequential consistency; scheduling points at synchronisation operations only"),
